@@ -180,7 +180,8 @@ def cbname(nm):
     if kind == 0 and 300 <= k < 320:
         return f"s{k - 300}"          # a user name that is also the id of a state (provided by model / listeners)
     return {
-        0: f"u{k}", 1: "before_transition", 2: "on_transition", 3: "after_transition",
+        # (every fifth user name starts with an underscore: a legal name for a callback, on listeners too)
+        0: (f"_u{k}" if (k % 5 == 0 and k < 300) else f"u{k}"), 1: "before_transition", 2: "on_transition", 3: "after_transition",
         4: f"before_{evname(k)}", 5: f"on_{evname(k)}", 6: f"after_{evname(k)}",
         7: "on_enter_state", 8: "on_exit_state", 9: f"on_enter_s{k}", 10: f"on_exit_s{k}",
     }[kind]
@@ -985,8 +986,14 @@ def render_source(sc):
     out.append(f"LISTENERS = [{', '.join(f'L{p}()' for p in range(2, len(sc['provs'])) if p not in late)}]")
     out.append("LATE = {" + ", ".join(f"{p}: L{p}()" for p in sorted(late)) + "}    # attached later with add_listener")
     kw = []
+    # over a stored state the start_value is never looked at: half of the machines that resume a stored state (and
+    # have no start_value of their own) are given one that is no state value at all
+    bad_start = (sc.get("field0") is not None and sc.get("start") is None and len(sc["trans"]) % 2 == 0
+                 and not any(op[0] in ("construct", "activate") for op in sc["ops"][1:]))
     if sc.get("start") is not None:
         kw.append(f"start_value={state_value(sc, sc['start'])!r}")
+    elif bad_start:
+        kw.append("start_value='no such state'")
     # (a third of the rtc=False machines get the option as another falsy value)
     rtc_false = "0" if (len(sc["trans"]) + sc["n"]) % 3 == 0 else "False"
     if not sc.get("rtc", True):
@@ -999,7 +1006,7 @@ def render_source(sc):
         out.append("    return model.sm")
     elif sc.get("positional_ctor") and not hooks and not inst:
         # every option given positionally, in the documented order
-        sv_ = repr(state_value(sc, sc["start"])) if sc.get("start") is not None else "None"
+        sv_ = repr(state_value(sc, sc["start"])) if sc.get("start") is not None else ("'no such state'" if bad_start else "None")
         out.append(f"    return M(model, 'state', {sv_}, {True if sc.get('rtc', True) else rtc_false}, {bool(sc.get('allow'))}, listeners)")
     else:
         out.append(f"    return M(model{''.join(', ' + k for k in kw)}, listeners=listeners)")
@@ -1034,6 +1041,10 @@ def call_style(sm, style, name, tag, ns):
     """the same event through the other documented entry points"""
     if style == "attr":                       # sm.go(...)
         return getattr(sm, name)(tag=tag)
+    if style == "strenum":                    # send() with a member of a str-based Enum whose value is the event name
+        import enum
+        Ev = enum.Enum("Ev", {"member": str(name)}, type=str)
+        return sm.send(Ev.member, tag=tag)
     if style == "events":                     # the matching item of sm.events
         for ev in sm.events:
             if str(ev) == name:
